@@ -1065,6 +1065,168 @@ theorem world_block_is_withBlock (name : String) (c : Call) (es : List Edit) (or
         simp [wExitWith, World.stOf, World.var, World.set, exitBlock_unrecorded]
         try (cases h3 : exitBlock name c true _ y' _ <;> simp [World.stOf, World.var, World.set])
 
+/-- … and with the nested-block model: the inner block entered on the YIELDED object, closed first -/
+theorem world_nested_is_withNested (n1 : String) (c1 : Call) (n2 : String) (c2 : Call) (e2 e1 : List Edit) (orig : St) :
+    (runSteps (World.init [orig]) (nestedProg n1 c1 n2 c2 e2 e1)).map (·.stOf 0) = withNested n1 c1 n2 c2 e2 e1 orig := by
+  simp only [withNested, withBlock]
+  cases h1 : fwd n1 c1 orig with
+  | error e => simp [nestedProg, runSteps, runStep, wCall, World.init, World.var, Obj.fresh, bind, Except.bind, Except.map, h1, List.range, List.range.loop]
+  | ok y1 =>
+  obtain ⟨st1, self1, rec1⟩ := y1
+  cases h2 : fwd n2 c2 st1 with
+  | error e =>
+    cases self1 <;>
+    simp [nestedProg, runSteps, runStep, wCall, wEnter, World.init, World.var, World.set, Obj.fresh, bind, Except.bind, Except.map, pure, Except.pure, h1, h2, List.range, List.range.loop]
+  | ok y2 =>
+  obtain ⟨st2, self2, rec2⟩ := y2
+  cases g2 : applyEdits st2 e2 with
+  | error e =>
+    cases self1 <;> cases self2 <;>
+    simp [nestedProg, runSteps, runStep, wCall, wEnter, wEdits, World.init, World.var, World.set, Obj.fresh, bind, Except.bind, Except.map, pure, Except.pure, h1, h2, g2, List.range, List.range.loop]
+  | ok y2' =>
+  obtain ⟨r2, k2⟩ : ∃ r, exitBlock n2 c2 rec2 self2 y2' (if self2 = true then y2' else st1) = r := ⟨_, rfl⟩
+  cases r2 with
+  | error e =>
+    cases self1 <;> cases self2 <;> cases rec2 <;>
+    simp only [Bool.false_eq_true, ↓reduceIte] at k2 <;>
+    simp [nestedProg, runSteps, runStep, wCall, wEnter, wEdits, wExit, wExitObj, wExitWith, World.init, World.var, World.set, Obj.fresh, bind, Except.bind, Except.map, pure, Except.pure, h1, h2, g2, k2, exitBlock_unrecorded, List.range, List.range.loop] <;>
+    simp_all [exitBlock_unrecorded]
+  | ok o2 =>
+  cases g1 : applyEdits o2 e1 with
+  | error e =>
+    cases self1 <;> cases self2 <;> cases rec2 <;>
+    simp only [Bool.false_eq_true, ↓reduceIte] at k2 <;>
+    simp [nestedProg, runSteps, runStep, wCall, wEnter, wEdits, wExit, wExitObj, wExitWith, World.init, World.var, World.set, Obj.fresh, bind, Except.bind, Except.map, pure, Except.pure, h1, h2, g2, k2, exitBlock_unrecorded, List.range, List.range.loop] <;>
+    simp_all [exitBlock_unrecorded]
+  | ok y1' =>
+  obtain ⟨r1, k1⟩ : ∃ r, exitBlock n1 c1 rec1 self1 y1' (if self1 = true then y1' else orig) = r := ⟨_, rfl⟩
+  cases self1 <;> cases self2 <;> cases rec1 <;> cases rec2 <;>
+    simp only [Bool.false_eq_true, ↓reduceIte] at k1 k2 <;>
+    simp [nestedProg, runSteps, runStep, wCall, wEnter, wEdits, wExit, wExitObj, wExitWith, World.init, World.var, World.set, World.stOf, Obj.fresh, bind, Except.bind, Except.map, pure, Except.pure, h1, h2, g2, k2, exitBlock_unrecorded, List.range, List.range.loop] <;>
+    cases r1 <;> simp_all [exitBlock_unrecorded]
+
+/-- … and with the sibling model: the inner block entered on the ORIGINAL again while the outer one is open -/
+theorem world_sibling_is_withSibling (n1 : String) (c1 : Call) (n2 : String) (c2 : Call) (e2 e1 : List Edit) (orig : St) :
+    (runSteps (World.init [orig]) (siblingProg n1 c1 n2 c2 e2 e1)).map (·.stOf 0) = withSibling n1 c1 n2 c2 e2 e1 orig := by
+  simp only [withSibling, withBlock]
+  cases h1 : fwd n1 c1 orig with
+  | error e => simp [siblingProg, runSteps, runStep, wCall, World.init, World.var, Obj.fresh, bind, Except.bind, Except.map, h1, List.range, List.range.loop]
+  | ok y1 =>
+  obtain ⟨st1, self1, rec1⟩ := y1
+  cases h2 : fwd n2 c2 (if self1 = true then st1 else orig) with
+  | error e =>
+    cases self1 <;>
+    (try simp only [Bool.false_eq_true, ↓reduceIte] at *) <;>
+    simp [siblingProg, runSteps, runStep, wCall, wEnter, World.init, World.var, World.set, Obj.fresh, bind, Except.bind, Except.map, pure, Except.pure, h1, h2, List.range, List.range.loop]
+  | ok y2 =>
+  obtain ⟨st2, self2, rec2⟩ := y2
+  cases g2 : applyEdits st2 e2 with
+  | error e =>
+    cases self1 <;> cases self2 <;>
+    (try simp only [Bool.false_eq_true, ↓reduceIte] at *) <;>
+    simp [siblingProg, runSteps, runStep, wCall, wEnter, wEdits, World.init, World.var, World.set, Obj.fresh, bind, Except.bind, Except.map, pure, Except.pure, h1, h2, g2, List.range, List.range.loop]
+  | ok y2' =>
+  obtain ⟨r2, k2⟩ : ∃ r, exitBlock n2 c2 rec2 self2 y2' (if self2 = true then y2' else (if self1 = true then st1 else orig)) = r := ⟨_, rfl⟩
+  cases r2 with
+  | error e =>
+    cases self1 <;> cases self2 <;> cases rec2 <;>
+    (try simp only [Bool.false_eq_true, ↓reduceIte] at *) <;>
+    simp [siblingProg, runSteps, runStep, wCall, wEnter, wEdits, wExit, wExitObj, wExitWith, World.init, World.var, World.set, Obj.fresh, bind, Except.bind, Except.map, pure, Except.pure, h1, h2, g2, k2, exitBlock_unrecorded, List.range, List.range.loop] <;>
+    simp_all [exitBlock_unrecorded]
+  | ok o2 =>
+  cases g1 : applyEdits (if self1 = true then o2 else st1) e1 with
+  | error e =>
+    cases self1 <;> cases self2 <;> cases rec2 <;>
+    (try simp only [Bool.false_eq_true, ↓reduceIte] at *) <;>
+    simp [siblingProg, runSteps, runStep, wCall, wEnter, wEdits, wExit, wExitObj, wExitWith, World.init, World.var, World.set, Obj.fresh, bind, Except.bind, Except.map, pure, Except.pure, h1, h2, g2, k2, exitBlock_unrecorded, List.range, List.range.loop] <;>
+    simp_all [exitBlock_unrecorded]
+  | ok y1' =>
+  obtain ⟨r1, k1⟩ : ∃ r, exitBlock n1 c1 rec1 self1 y1' (if self1 = true then y1' else o2) = r := ⟨_, rfl⟩
+  cases self1 <;> cases self2 <;> cases rec1 <;> cases rec2 <;>
+    (try simp only [Bool.false_eq_true, ↓reduceIte] at *) <;>
+    simp [siblingProg, runSteps, runStep, wCall, wEnter, wEdits, wExit, wExitObj, wExitWith, World.init, World.var, World.set, World.stOf, Obj.fresh, bind, Except.bind, Except.map, pure, Except.pure, h1, h2, g2, k2, exitBlock_unrecorded, List.range, List.range.loop] <;>
+    cases r1 <;> simp_all [exitBlock_unrecorded]
+
+/-- … and two blocks in a row on the same original are the two one-block results composed -/
+theorem world_sequential_is_two_blocks (n1 : String) (c1 : Call) (e1 : List Edit) (n2 : String) (c2 : Call) (e2 : List Edit) (orig : St) :
+    (runSteps (World.init [orig]) (sequentialProg n1 c1 e1 n2 c2 e2)).map (·.stOf 0) =
+      (withBlock n1 c1 e1 orig >>= fun o => withBlock n2 c2 e2 o) := by
+  simp only [withBlock]
+  cases h1 : fwd n1 c1 orig with
+  | error e => simp [sequentialProg, runSteps, runStep, wCall, World.init, World.var, Obj.fresh, bind, Except.bind, Except.map, h1, List.range, List.range.loop]
+  | ok y1 =>
+  obtain ⟨st1, self1, rec1⟩ := y1
+  cases g1 : applyEdits st1 e1 with
+  | error e =>
+    cases self1 <;>
+    simp [sequentialProg, runSteps, runStep, wCall, wEnter, wEdits, World.init, World.var, World.set, Obj.fresh, bind, Except.bind, Except.map, pure, Except.pure, h1, g1, List.range, List.range.loop]
+  | ok y1' =>
+  obtain ⟨r1, k1⟩ : ∃ r, exitBlock n1 c1 rec1 self1 y1' (if self1 = true then y1' else orig) = r := ⟨_, rfl⟩
+  cases r1 with
+  | error e =>
+    cases self1 <;> cases rec1 <;>
+    (try simp only [Bool.false_eq_true, ↓reduceIte] at *) <;>
+    simp [sequentialProg, runSteps, runStep, wCall, wEnter, wEdits, wExit, wExitObj, wExitWith, World.init, World.var, World.set, Obj.fresh, bind, Except.bind, Except.map, pure, Except.pure, h1, g1, k1, exitBlock_unrecorded, List.range, List.range.loop] <;>
+    simp_all [exitBlock_unrecorded]
+  | ok o1 =>
+  cases h2 : fwd n2 c2 o1 with
+  | error e =>
+    cases self1 <;> cases rec1 <;>
+    (try simp only [Bool.false_eq_true, ↓reduceIte] at *) <;>
+    simp [sequentialProg, runSteps, runStep, wCall, wEnter, wEdits, wExit, wExitObj, wExitWith, World.init, World.var, World.set, Obj.fresh, bind, Except.bind, Except.map, pure, Except.pure, h1, g1, k1, exitBlock_unrecorded, List.range, List.range.loop] <;>
+    simp_all [exitBlock_unrecorded]
+  | ok y2 =>
+  obtain ⟨st2, self2, rec2⟩ := y2
+  cases g2 : applyEdits st2 e2 with
+  | error e =>
+    cases self1 <;> cases rec1 <;> cases self2 <;>
+    (try simp only [Bool.false_eq_true, ↓reduceIte] at *) <;>
+    simp [sequentialProg, runSteps, runStep, wCall, wEnter, wEdits, wExit, wExitObj, wExitWith, World.init, World.var, World.set, Obj.fresh, bind, Except.bind, Except.map, pure, Except.pure, h1, g1, k1, exitBlock_unrecorded, List.range, List.range.loop] <;>
+    simp_all [exitBlock_unrecorded]
+  | ok y2' =>
+  obtain ⟨r2, k2⟩ : ∃ r, exitBlock n2 c2 rec2 self2 y2' (if self2 = true then y2' else o1) = r := ⟨_, rfl⟩
+  cases self1 <;> cases rec1 <;> cases self2 <;> cases rec2 <;>
+    (try simp only [Bool.false_eq_true, ↓reduceIte] at *) <;>
+    simp [sequentialProg, runSteps, runStep, wCall, wEnter, wEdits, wExit, wExitObj, wExitWith, World.init, World.var, World.set, World.stOf, Obj.fresh, bind, Except.bind, Except.map, pure, Except.pure, h1, g1, k1, exitBlock_unrecorded, List.range, List.range.loop] <;>
+    cases r2 <;> simp_all [exitBlock_unrecorded]
+
+/-- a block left by an exception leaves no trace in the record queue: the original keeps what the forward call and the edits made of it
+(nothing when the method returned a new object; the edited / locked `self` otherwise — no inverse runs), and a following block on the
+same original behaves exactly as a block on that state -/
+theorem aborted_block_then_block (n1 : String) (c1 : Call) (e1 : List Edit) (n2 : String) (c2 : Call) (e2 : List Edit) (orig : St) :
+    (runSteps (World.init [orig]) (abortedThenProg n1 c1 e1 n2 c2 e2)).map (·.stOf 0) =
+      (do let y ← fwd n1 c1 orig
+          let y' ← applyEdits y.st e1
+          withBlock n2 c2 e2 (if y.isSelf then y' else orig)) := by
+  simp only [withBlock]
+  cases h1 : fwd n1 c1 orig with
+  | error e => simp [abortedThenProg, runSteps, runStep, wCall, World.init, World.var, Obj.fresh, bind, Except.bind, Except.map, h1, List.range, List.range.loop]
+  | ok y1 =>
+  obtain ⟨st1, self1, rec1⟩ := y1
+  cases g1 : applyEdits st1 e1 with
+  | error e =>
+    cases self1 <;>
+    simp [abortedThenProg, runSteps, runStep, wCall, wEnter, wEdits, World.init, World.var, World.set, Obj.fresh, bind, Except.bind, Except.map, pure, Except.pure, h1, g1, List.range, List.range.loop]
+  | ok y1' =>
+  cases h2 : fwd n2 c2 (if self1 = true then y1' else orig) with
+  | error e =>
+    cases self1 <;>
+    (try simp only [Bool.false_eq_true, ↓reduceIte] at *) <;>
+    simp [abortedThenProg, runSteps, runStep, wCall, wEnter, wEdits, wExitRaised, World.init, World.var, World.set, Obj.fresh, bind, Except.bind, Except.map, pure, Except.pure, h1, g1, h2, List.range, List.range.loop]
+  | ok y2 =>
+  obtain ⟨st2, self2, rec2⟩ := y2
+  cases g2 : applyEdits st2 e2 with
+  | error e =>
+    cases self1 <;> cases self2 <;>
+    (try simp only [Bool.false_eq_true, ↓reduceIte] at *) <;>
+    simp [abortedThenProg, runSteps, runStep, wCall, wEnter, wEdits, wExitRaised, World.init, World.var, World.set, Obj.fresh, bind, Except.bind, Except.map, pure, Except.pure, h1, g1, h2, g2, List.range, List.range.loop]
+  | ok y2' =>
+  obtain ⟨r2, k2⟩ : ∃ r, exitBlock n2 c2 rec2 self2 y2' (if self2 = true then y2' else (if self1 = true then y1' else orig)) = r := ⟨_, rfl⟩
+  cases self1 <;> cases self2 <;> cases rec2 <;>
+    (try simp only [Bool.false_eq_true, ↓reduceIte] at *) <;>
+    simp [abortedThenProg, runSteps, runStep, wCall, wEnter, wEdits, wExit, wExitObj, wExitWith, wExitRaised, World.init, World.var, World.set, World.stOf, Obj.fresh, bind, Except.bind, Except.map, pure, Except.pure, h1, g1, h2, g2, exitBlock_unrecorded, List.range, List.range.loop] <;>
+    cases r2 <;> simp_all [exitBlock_unrecorded]
+
 /-- FRAME: a normal exit of object `j` writes nothing outside its footprint (`j` and the object its top record points at) -/
 theorem exit_writes_only_its_footprint (w w' : World) (j : Nat) (h : wExitObj w j = .ok w') :
     w'.next = w.next ∧ w'.vars = w.vars ∧ ∀ i, i ∉ footprint w j → w'.objs i = w.objs i := by
